@@ -12,6 +12,12 @@ import ALV.Model.C10
 namespace ALV.C10
 variable {α : Type} [Add α] [Mul α] [Sub α] [Neg α] [Div α] [OfNat α 0] [OfNat α 1]
 
+/-- the order `levinson_durbin` works with: `order`, or `len(r) − 1` for `None` -/
+def orderOf (r : List α) (order : Option Nat) : Nat := order.getD (r.length - 1)
+
+/-- the order `lpc.kautocor` / `lpc.kcovar` work with: `order`, or `len(blk) − 1` for `None` -/
+def blkOrder (blk : List α) (order : Option Nat) : Nat := order.getD (blk.length - 1)
+
 /-- left side of the i-th Yule–Walker equation: `Σ_{j ≤ p} a_j · r|i−j|` -/
 def neResidual (r a : List α) (p i : Nat) : α :=
   sumL ((List.range (p + 1)).map fun j => coef a j * coef r (adiff i j))
